@@ -95,8 +95,8 @@ theorem rt_string_print {F : GFile} (hl : RtLink F) (gw : GWorld) (s : String) :
   have hcall := ev_call (ty := .void) hfn (evl_cons hx evl_nil) (call_print hres)
   exact call_func_env hf rfl (block_cons (stmt_expr hcall) (block_cons_sig (sig := .ret .unit) (by simp) (stmt_ret ev_unitv))) rfl
 
-theorem argsRel_single {env : Env} {vs : List Val} {gvs : List GVal} {t : Ty} (h : ArgsRel env vs gvs [t]) :
-    ∃ v g, vs = [v] ∧ gvs = [g] ∧ toGV env v = some g ∧ HasTy env v t := by
+theorem argsRel_single {env : Env} {η : Hp} {vs : List Val} {gvs : List GVal} {t : Ty} (h : ArgsRel env η vs gvs [t]) :
+    ∃ v g, vs = [v] ∧ gvs = [g] ∧ toGV env η v = some g ∧ HasTy env η v t := by
   rcases vs with _ | ⟨v, _ | ⟨v2, vs⟩⟩ <;> rcases gvs with _ | ⟨g, _ | ⟨g2, gs⟩⟩ <;> simp [ArgsRel] at h
   exact ⟨v, g, rfl, rfl, h.1, h.2⟩
 
@@ -124,13 +124,13 @@ theorem sem_uint64_ts (n s x) (w : World) : Sem.builtin "uint64_to_string" [.int
   int_ts "uint64_to_string" "uint"
 
 /-- one integer `*_to_string` builtin -/
-theorem builtin_int {env : Env} {F : GFile} (hl : RtLink F) (name : String) (gty : GTy) (b : Nat) (sg : Bool)
+theorem builtin_int {env : Env} {η : Hp} {F : GFile} (hl : RtLink F) (name : String) (gty : GTy) (b : Nat) (sg : Bool)
     (hrt : runtimeFile.findFunc name = some (toStringFn name gty "%d"))
     (hsem : ∀ n s x (w : World), Sem.builtin name [.int n s x] w = some (.ok (.str (Sem.showInt x)) w))
     {vs : List Val} {gvs : List GVal} {w : World} {gw : GWorld}
-    (hargs : ArgsRel env vs gvs [.int b sg]) (hw : WRel w gw) :
+    (hargs : ArgsRel env η vs gvs [.int b sg]) (hw : WRel env η w gw) :
     ∃ v w' gv gw', Sem.builtin name vs w = some (.ok v w') ∧ CallS F gw (.func name) gvs (.ok gv gw') ∧
-      toGV env v = some gv ∧ HasTy env v .string ∧ WRel w' gw' := by
+      toGV env η v = some gv ∧ HasTy env η v .string ∧ WRel env η w' gw' := by
   obtain ⟨v, g, rfl, rfl, hg, ht⟩ := argsRel_single hargs
   obtain ⟨x, rfl⟩ := hasTy_int ht
   simp [toGV] at hg; subst hg
@@ -142,11 +142,11 @@ theorem vn_builtin {b : String} (hb : b ∈ builtinNames) : vn b = b := by
   rcases hb with rfl | rfl | rfl | rfl | rfl | rfl | rfl | rfl | rfl | rfl | rfl | rfl <;> decide +kernel
 
 /-- every stage (a) builtin: `Sem.builtin` and the runtime function of that name agree -/
-theorem builtin_call {env : Env} {F : GFile} (hl : RtLink F) {b : String} {ps : List Ty} {r : Ty} {vs : List Val} {gvs : List GVal}
+theorem builtin_call {env : Env} {η : Hp} {F : GFile} (hl : RtLink F) {b : String} {ps : List Ty} {r : Ty} {vs : List Val} {gvs : List GVal}
     {w : World} {gw : GWorld} (hb : b ∈ builtinNames) (hsig : builtinSig b = some (ps, r))
-    (hargs : ArgsRel env vs gvs ps) (hw : WRel w gw) :
+    (hargs : ArgsRel env η vs gvs ps) (hw : WRel env η w gw) :
     ∃ v w' gv gw', Sem.builtin b vs w = some (.ok v w') ∧ CallS F gw (.func b) gvs (.ok gv gw') ∧
-      toGV env v = some gv ∧ HasTy env v r ∧ WRel w' gw' := by
+      toGV env η v = some gv ∧ HasTy env η v r ∧ WRel env η w' gw' := by
   simp only [builtinNames, List.mem_cons, List.mem_singleton, List.not_mem_nil, or_false] at hb
   rcases hb with rfl | rfl | rfl | rfl | rfl | rfl | rfl | rfl | rfl | rfl | rfl | rfl <;>
     (simp only [builtinSig, Option.some.injEq, Prod.mk.injEq] at hsig; obtain ⟨hp, hr⟩ := hsig; subst hp; subst hr)
@@ -169,12 +169,12 @@ theorem builtin_call {env : Env} {F : GFile} (hl : RtLink F) {b : String} {ps : 
   · obtain ⟨v, g, rfl, rfl, hg, ht⟩ := argsRel_single hargs
     obtain ⟨s, rfl⟩ := hasTy_str ht
     simp [toGV] at hg; subst hg
-    refine ⟨_, _, _, _, rfl, rt_string_print hl gw s, rfl, trivial, ?_⟩
-    exact ⟨by simp [hw.1], hw.2⟩
+    exact ⟨_, _, _, _, rfl, rt_string_print hl gw s, rfl, trivial, hw.print s⟩
   · obtain ⟨v, g, rfl, rfl, hg, ht⟩ := argsRel_single hargs
     obtain ⟨s, rfl⟩ := hasTy_str ht
     simp [toGV] at hg; subst hg
     refine ⟨_, _, _, _, rfl, rt_string_println hl gw s, rfl, trivial, ?_⟩
-    exact ⟨by simp [hw.1], hw.2⟩
+    have := (hw.print s).print "\n"
+    simpa [String.append_assoc] using this
 
 end Goml.GoComp
